@@ -800,6 +800,12 @@ func (r *resolver) expandAugment(y *Augment, parent Meta) error {
 	for _, orig := range y.DataDefinitions() {
 		var err error
 		d := orig.(cloneable).clone(target).(Definition)
+		if y.when != nil {
+			// the nodes an augment adds are conditional on the augment's when, same as uses
+			if hw, canWhen := d.(HasWhen); canWhen && hw.When() == nil {
+				hw.setWhen(y.when)
+			}
+		}
 		if targetIsChoice {
 			if cs, isCase := d.(*ChoiceCase); isCase {
 				if err = targetChoice.addCase(cs); err != nil {
